@@ -236,7 +236,7 @@ class CallMixin:
     if what in ('read', 'contains', 'get', 'items', 'keys', 'values', '__len__'):
       # ... but it is remembered: a later write must not be computed from a value read while the lock was free
       if m.guard is not None and not self.spec_mode:
-        self.__dict__.setdefault('guarded_reads', []).append((m, m.val, m.has, m.none, m.guard.held > 0))
+        self.__dict__.setdefault('guarded_reads', []).append((m, m.val, m.has, m.none, getattr(m.guard, 'epoch', 0) if m.guard.held > 0 else -1))
       return
     if m.guard is not None and m.guard.held == 0 and not self.spec_mode:
       self.oblige(f'{self.cur_name}/lock-discipline[{what}]', z3.BoolVal(False), 'lock-discipline',
@@ -246,7 +246,10 @@ class CallMixin:
     """check-then-act: the value written into a guarded map (under its lock) must not depend on an entry of that map read
     while the lock was free, unless the map was read again under the lock since (the usual re-check)."""
     reads = [r for r in self.__dict__.get('guarded_reads', ()) if r[0] is m]
-    if not reads or reads[-1][4] or m.guard is None or m.guard.held == 0:
+    if not reads or m.guard is None or m.guard.held == 0:
+      return
+    now = getattr(m.guard, 'epoch', 0)       # the current holding of the lock; a read made in an EARLIER holding is stale too
+    if any(r[4] == now for r in reads):
       return
     try:
       pv = v.val if isinstance(v, VOpt) else v
@@ -255,7 +258,7 @@ class CallMixin:
       return
     if t is None:
       return
-    arrays = {a.get_id() for r in reads if not r[4] for a in r[1:4] if a is not None}
+    arrays = {a.get_id() for r in reads if r[4] != now for a in r[1:4] if a is not None}
     todo, seen = [t], set()
     while todo:
       x = todo.pop()
@@ -264,7 +267,7 @@ class CallMixin:
       seen.add(x.get_id())
       if z3.is_select(x) and x.arg(0).get_id() in arrays:
         self.oblige(f'{self.cur_name}/lock-discipline[write from a read made outside {m.guard.name.split(".")[-1]}]', z3.BoolVal(False), 'lock-discipline',
-                    {'text': f'the value written under {m.guard.name} is computed from an entry read while the lock was free and not read again under it (check-then-act)'})
+                    {'text': f'the value written under {m.guard.name} is computed from an entry read before this holding of the lock (outside it, or in an earlier locked section) and not read again (check-then-act)'})
         return
       todo.extend(x.children())
 
@@ -511,6 +514,8 @@ class CallMixin:
                       {'text': f'{lk.name} (rank {r}) is acquired while {h.name} (rank {rh}) is held: the lock hierarchy is '
                                f'{sorted(ranks.items(), key=lambda kv: kv[1])}'})
     held.append(lk)
+    if lk.held == 0:
+      lk.epoch = getattr(lk, 'epoch', 0) + 1       # a new holding of the lock
     lk.held += 1
     lk.events.append('acquire')
 
